@@ -582,6 +582,26 @@ def search(ctx):
             _report(ctx, cfg, dict(extra, fresh_process=True), r)
             if len(ctx.failing) >= 3:
                 return
+    # then: construction ORDER within one process — a network built after another one whose output layer has the same size
+    # (features x multiplier) but another feature count, same hidden width: anything memoised per layer size would be reused
+    for (F1, m1, F2, m2) in ((3, 2, 2, 3), (4, 1, 2, 2), (6, 1, 3, 2), (6, 1, 2, 3), (4, 3, 3, 4), (5, 4, 4, 5), (2, 3, 3, 2), (2, 2, 4, 1)):
+        for H in (1, 2, 3):
+            for copy in ('transforms', 'nde'):
+                for blocks in (1, 2):
+                    try:
+                        construct(dict(copy=copy, F=F1, H=H, blocks=blocks, m=m1, residual=False, random=False, C=0, bn=False, seed=0))
+                    except Exception:
+                        continue
+                    cfg = dict(copy=copy, F=F2, H=H, blocks=blocks, m=m2, residual=False, random=False, C=0, bn=False, seed=0)
+                    extra = dict(act='tanh', train=False, dropout=0.0, wseed=1)
+                    try:
+                        r = oracle_case(cfg, **extra)
+                    except Exception:
+                        r = None
+                    if r is not None:
+                        _report(ctx, cfg, dict(extra, built_after=dict(F=F1, H=H, m=m1, blocks=blocks)), r)
+                        if len(ctx.failing) >= 3:
+                            return
     # then: the generator, small sizes first
     for F in range(1, 7):
         for H in (1, 2, 3, 5, 8):
